@@ -36,7 +36,8 @@ _RULE_VIRTUAL = (
     "invoked afterwards. Check 'interval': reactivex.interval(p) and timer(d, p) (d relative int/float/timedelta or "
     "absolute datetime, d == p and d != p, scheduler given to the factory or to subscribe) subscribed at t0, disposed at "
     "a generated time or never: on_next log is exactly [(t0+d+k*p, k) for k=0..n-1] with int values, no terminal event. "
-    "Non-trivial: >=3 ticks and a dispose or raise strictly inside the run. Distinct = distinct case JSON."
+    "Check 'resubscribe': ONE interval/timer observable subscribed 2..3 times at generated instants (also after an earlier subscription was disposed), each subscription optionally disposed: every subscription gets int 0,1,2,... at its own ticks (counted from its own subscribe time; from the absolute due time for an absolute d). The kinds histus/vtsus/catch-histus drive the same schedulers with microsecond-granular periods and times (exactly representable in datetime/timedelta/float seconds). "
+    "Non-trivial: >=3 ticks and a dispose or raise strictly inside the run (resubscribe: a later subscription emitted >= 2 values). Distinct = distinct case JSON."
 )
 _ASSUMPTIONS_VIRTUAL = [
     "periods are >= 1 unit (a zero period on virtual time never lets the clock advance; negative periods are excluded)",
@@ -264,14 +265,21 @@ def _run_interval(case):
             d_arg = enc_abs(base, origin + d, "dt") if case["dform"] == "dt" else enc_rel(base, d, case["dform"])
             make_obs = lambda s: reactivex.timer(d_arg, p_arg, scheduler=s)  # noqa: E731
 
+        cap = sum(x for x, _ in case["steps"]) // period + 5  # more emissions than periods in the horizon: runaway
+
+        def on_next(v):
+            if len(log) > cap:
+                raise _Runaway()
+            log.append([drv.now(), canon(v)])
+
         def subscribe(s):
             if case["sched_at"] == "factory":
                 obs = make_obs(sched)
-                holder["d"] = obs.subscribe(on_next=lambda v: log.append([drv.now(), canon(v)]), on_error=lambda e: terminal.append(["E", repr(e)]), on_completed=lambda: terminal.append(["C"]))
+                holder["d"] = obs.subscribe(on_next=on_next, on_error=lambda e: terminal.append(["E", repr(e)]), on_completed=lambda: terminal.append(["C"]))
             else:
                 obs = make_obs(None)
                 holder["d"] = obs.subscribe(
-                    on_next=lambda v: log.append([drv.now(), canon(v)]),
+                    on_next=on_next,
                     on_error=lambda e: terminal.append(["E", repr(e)]),
                     on_completed=lambda: terminal.append(["C"]),
                     scheduler=sched,
@@ -283,6 +291,9 @@ def _run_interval(case):
             inner.sleep(enc_rel(base, t0, "num"))
         subscribe(sched)
         drv.run(case["steps"], False)
+    except _Runaway:
+        inner.stop()
+        return FAIL(f"runaway-emissions|{case['op']}", f"more than {cap} emissions within a horizon of {sum(x for x, _ in case['steps'])} units; log={log[:6]} case={case}", classes=cls)
     except Exception as e:  # noqa: BLE001
         return escaped(e, f"{case['op']}|{kind}", f"case={case}", cls)
     horizon = sum(x for x, _ in case["steps"])
@@ -324,8 +335,124 @@ def _run_interval(case):
     return OK(n >= 3 and da is not None and da < horizon, cls)
 
 
+# --------------------------------------------------------------------------------------------- check: resubscribe
+def _run_resub(case):
+    """ONE interval/timer observable subscribed 2..3 times at different instants (also after an earlier subscription was
+    disposed): every subscription gets its own 0,1,2,... at its own ticks - relative forms count from that subscription's
+    subscribe time, the absolute-datetime form from the absolute due time."""
+    kind, init, t0, period = case["kind"], case["init"], case["t0"], case["period"]
+    handled = []
+    inner, sched, base = _build(kind, init, True, handled)
+    drv = _Driver(inner, base, init + t0)
+    origin = init + t0
+    d, op, dform = case["d"], case["op"], case["dform"]
+    cls = [kind, op, "subscriptions:%d" % len(case["subs"])]
+    if base.endswith("us"):
+        cls.append("microsecond-granular-period")
+    logs = [[] for _ in case["subs"]]
+    terminal = []
+    disps = {}
+    subs = []
+    for i, (t_i, da) in enumerate(case["subs"]):
+        if op == "timer" and dform == "dt":
+            t_i = min(t_i, d)  # an absolute due time is never in the past of a subscription
+        if da is not None and da <= t_i:
+            da = t_i + 1 + (da % 3)
+        subs.append((t_i, da))
+    try:
+        p_arg = enc_rel(base, period, case["pform"])
+        by_factory = case["sched_at"] == "factory"
+        if op == "interval":
+            obs = reactivex.interval(p_arg, scheduler=sched if by_factory else None)
+        else:
+            d_arg = enc_abs(base, origin + d, "dt") if dform == "dt" else enc_rel(base, d, dform)
+            obs = reactivex.timer(d_arg, p_arg, scheduler=sched if by_factory else None)
+
+        cap = sum(x for x, _ in case["steps"]) // period + 5
+
+        def on_next_for(i):
+            def on_next(v):
+                if len(logs[i]) > cap:
+                    raise _Runaway()
+                logs[i].append([drv.now(), canon(v)])
+
+            return on_next
+
+        def subscribe(i):
+            kw = {} if by_factory else {"scheduler": sched}
+            disps[i] = obs.subscribe(
+                on_next=on_next_for(i),
+                on_error=lambda e: terminal.append(["E", i, repr(e)]),
+                on_completed=lambda: terminal.append(["C", i]),
+                **kw,
+            )
+
+        for i, (t_i, da) in enumerate(subs):
+            if da is not None:
+                inner.schedule_absolute(enc_abs(base, origin + da, "num"), lambda s, st_=None, i=i: disps[i].dispose())
+        if t0:
+            inner.sleep(enc_rel(base, t0, "num"))
+        for i, (t_i, da) in enumerate(subs):
+            if t_i == 0:
+                subscribe(i)
+            else:
+                inner.schedule_absolute(enc_abs(base, origin + t_i, "num"), lambda s, st_=None, i=i: subscribe(i))
+        drv.run(case["steps"], False)
+    except _Runaway:
+        inner.stop()
+        return FAIL(f"runaway-emissions|{op}", f"more than {cap} emissions by one subscription within the horizon; logs={[lg[:4] for lg in logs]} case={case}", classes=cls)
+    except Exception as e:  # noqa: BLE001
+        return escaped(e, f"{op}|{kind}", f"case={case}", cls)
+    horizon = sum(x for x, _ in case["steps"])
+
+    def count(first, limit, inclusive):
+        if limit < first or (limit == first and not inclusive):
+            return 0
+        span = limit - first
+        c = span // period + 1
+        if not inclusive and span % period == 0:
+            c -= 1
+        return c
+
+    resub_after_dispose = False
+    nontrivial = False
+    for i, (t_i, da) in enumerate(subs):
+        if t_i > horizon:
+            lo = hi = 0
+            first = None
+        else:
+            first = d if (op == "timer" and dform == "dt") else t_i + (period if op == "interval" else d)
+            lo = hi = count(first, horizon, True)
+            if da is not None:
+                lo, hi = min(lo, count(first, da, False)), min(hi, count(first, da, True))
+        if i and any(pda is not None and pda <= t_i for _, pda in subs[:i]):
+            resub_after_dispose = True
+        n = len(logs[i])
+        for j in range(n):
+            exp = [origin + (first or 0) + j * period, ["int", j]]
+            if first is None or logs[i][j][0] != exp[0]:
+                return FAIL(f"tick-time|{op}|subscription#{min(i, 1)}", f"subscription {i} emission #{j} at {logs[i][j][0]}, expected {exp[0]}; log={logs[i][:8]} case={case}", classes=cls)
+            if logs[i][j][1] != exp[1]:
+                return FAIL(f"value|{op}|subscription#{min(i, 1)}", f"subscription {i} emission #{j} is {logs[i][j][1]}, expected {exp[1]}; log={logs[i][:8]} case={case}", classes=cls)
+        if n > hi:
+            return FAIL(f"emitted-{'after-dispose' if da is not None else 'beyond-horizon'}|{op}", f"subscription {i}: {n} emissions, at most {hi} expected; log={logs[i][:10]} case={case}", classes=cls)
+        if n < lo:
+            return FAIL(f"missing-ticks|{op}|subscription#{min(i, 1)}", f"subscription {i}: {n} emissions, at least {lo} expected; log={logs[i][:10]} case={case}", classes=cls)
+        if i and n >= 2:
+            nontrivial = True
+    if resub_after_dispose:
+        cls.append("resubscribed-after-dispose")
+    if sum(1 for lg in logs if lg) >= 2:
+        cls.append("two-subscriptions-emitting")
+    if terminal:
+        return FAIL(f"terminal-event|{op}", f"{terminal} case={case}", classes=cls)
+    if drv.escapes or handled:
+        return FAIL(f"escapes|{op}", f"{drv.escapes} {handled} case={case}", classes=cls)
+    return OK(nontrivial, cls)
+
+
 # ------------------------------------------------------------------------------------------------------ strategies
-_KINDS = ["test", "hist", "vts", "catch-test", "catch-hist"]
+_KINDS = ["test", "hist", "vts", "catch-test", "catch-hist", "histus", "vtsus", "catch-histus"]
 _steps = st.lists(
     st.tuples(st.one_of(st.integers(1, 12), st.integers(1, 40)), st.sampled_from(["to_dt", "to_num", "by_td", "by_num"])).map(list),
     min_size=1,
@@ -336,7 +463,7 @@ _steps = st.lists(
 def _periodic_cases():
     def build(kind):
         base = kind.split("-")[-1]
-        init = st.sampled_from([0, 0, 3, 86_400_000]) if base == "hist" else st.just(0)
+        init = st.sampled_from([0, 0, 3, 86_400_000]) if base in ("hist", "histus") else st.just(0)
         stop = st.one_of(
             st.none(),
             st.tuples(st.just("at"), st.integers(1, 40)).map(list),
@@ -368,7 +495,7 @@ def _periodic_cases():
 def _interval_cases():
     def build(kind):
         base = kind.split("-")[-1]
-        init = st.sampled_from([0, 0, 3, 86_400_000]) if base == "hist" else st.just(0)
+        init = st.sampled_from([0, 0, 3, 86_400_000]) if base in ("hist", "histus") else st.just(0)
         period = st.one_of(st.integers(1, 4), st.integers(1, 9))
 
         def with_period(p):
@@ -393,10 +520,18 @@ def _interval_cases():
     return st.sampled_from(_KINDS).flatmap(build)
 
 
+def _resub_cases():
+    sub = st.tuples(st.integers(0, 30), st.one_of(st.none(), st.integers(1, 40))).map(list)
+    return st.tuples(_interval_cases(), st.lists(sub, min_size=1, max_size=2), st.one_of(st.none(), st.integers(1, 25))).map(
+        lambda t: dict({k: v for k, v in t[0].items() if k != "dispose_at"}, subs=[[0, t[2]]] + sorted(t[1], key=lambda x: x[0]))
+    )
+
+
 def _virtual_checks(tier):
     return [
-        Check("periodic", _run_periodic, strategy=_periodic_cases(), examples={"quick": 2000, "thorough": 16 * 12000}, shards={"quick": 4, "thorough": 16}),
-        Check("interval", _run_interval, strategy=_interval_cases(), examples={"quick": 1200, "thorough": 16 * 8000}, shards={"quick": 4, "thorough": 16}),
+        Check("resubscribe", _run_resub, strategy=_resub_cases(), examples={"quick": 600, "thorough": 16 * 5000}, shards={"quick": 4, "thorough": 16}),
+        Check("periodic", _run_periodic, strategy=_periodic_cases(), examples={"quick": 1600, "thorough": 16 * 12000}, shards={"quick": 4, "thorough": 16}),
+        Check("interval", _run_interval, strategy=_interval_cases(), examples={"quick": 900, "thorough": 16 * 8000}, shards={"quick": 4, "thorough": 16}),
     ]
 
 
